@@ -18,12 +18,16 @@ def run(tier, seed, t0):
     for fl in ("optim", "debug"):
         for be in vbuild.BACKENDS:
             for icls in range(7):
-                for lgB in LGB:
+                for lgB in LGB + ([25] if icls in (0, 3) else []):      # beyond 2^24 (values that need more than 24 significant bits): classes whose exact product stays far below 2^63
                     r = reps if fl == "optim" else max(1, reps // 4)
                     jobs.append(Job("%s-%s-c%d-b%d" % (fl, be, icls, lgB), "drv_c10", fl, be,
                                     ["--seed", seed, "--icls", icls, "--lgB", lgB, "--reps", r, "--tag", "%s-%s" % (fl, be),
-                                     "--heapphase", (-1, 0, 16, 100)[(icls + LGB.index(lgB) + seed) % 4]],
+                                     "--heapphase", (-1, 0, 16, 100)[(icls + lgB + seed) % 4]],
                                     timeout=1800))
+
+    for i, j in enumerate(jobs):      # environment: sticky floating-point exception flags left raised by unrelated earlier code
+        if i % 3 == 1:
+            j.env = dict(j.env, VH_FPFLAGS="1")
 
     def post(results, agg):
         worst = {}
